@@ -406,11 +406,51 @@ func childWire(b run.Batch, r *ev.Result) {
 	r.Count("wire.list_scenarios", 1)
 	// ---- migration orders (they replace the list in the reply)
 	newGCA := refenc.GenKey(rng)
-	for i, n := range []int{0, 1, 2 + rng.Intn(4), 6 + rng.Intn(7)} {
+	// plain lists, then lists that carry the same server key twice: its
+	// authorization and its ban (both signed by the new GCA), in both orders,
+	// adjacent and far apart. The reply must carry the order as it was signed;
+	// the client keeps the reference merge.
+	shapes := []string{"plain", "plain", "plain", "plain", "auth,ban adjacent", "auth...ban far apart", "ban,auth adjacent", "ban...auth far apart", "two keys twice"}
+	for i, shape := range shapes {
+		n := []int{0, 1, 2 + rng.Intn(4), 6 + rng.Intn(7)}[i%4]
+		if shape != "plain" {
+			n = 3 + rng.Intn(6)
+		}
 		m := refenc.Migration{Equipment: x.dev.Key.Pub, NewGCA: newGCA.Pub, NewID: gU32(rng)}
 		for k := 0; k < n; k++ {
-			m.Servers = append(m.Servers, wireServer(rng, lens(), k%3 == 0 && n > 1, newGCA))
+			m.Servers = append(m.Servers, wireServer(rng, lens(), k%3 == 0 && n > 1 && shape == "plain", newGCA))
 		}
+		twin := func(of refenc.AuthServer, banned bool) refenc.AuthServer {
+			of.Banned = banned
+			return of.Signed(newGCA.Priv)
+		}
+		insert := func(at int, s refenc.AuthServer) {
+			m.Servers = append(m.Servers[:at], append([]refenc.AuthServer{s}, m.Servers[at:]...)...)
+		}
+		switch shape {
+		case "auth,ban adjacent":
+			k := rng.Intn(n)
+			m.Servers[k] = twin(m.Servers[k], false)
+			insert(k+1, twin(m.Servers[k], true))
+		case "auth...ban far apart":
+			m.Servers[0] = twin(m.Servers[0], false)
+			m.Servers = append(m.Servers, twin(m.Servers[0], true))
+		case "ban,auth adjacent":
+			k := rng.Intn(n)
+			m.Servers[k] = twin(m.Servers[k], true)
+			insert(k+1, twin(m.Servers[k], false))
+		case "ban...auth far apart":
+			m.Servers[0] = twin(m.Servers[0], true)
+			m.Servers = append(m.Servers, twin(m.Servers[0], false))
+		case "two keys twice":
+			m.Servers[0] = twin(m.Servers[0], false)
+			m.Servers[1] = twin(m.Servers[1], false)
+			m.Servers = append(m.Servers, twin(m.Servers[1], true), twin(m.Servers[0], true), twin(m.Servers[0], false))
+		}
+		if shape != "plain" {
+			r.Count("wire.orders_with_repeated_key", 1)
+		}
+		n = len(m.Servers)
 		m = m.Signed(w.GCA.Priv)
 		run.Op("equipment-migrate %d servers", n)
 		st, body, err := w.PostMigration(m)
@@ -434,7 +474,7 @@ func childWire(b run.Batch, r *ev.Result) {
 			r.Inconc("client start: " + err.Error())
 			return
 		}
-		ok := x.checkpoint(oc, fmt.Sprintf("migration order %d (%d servers)", i, n), true)
+		ok := x.checkpoint(oc, fmt.Sprintf("migration order %d (%d servers, %s)", i, n, shape), true)
 		oc.Close()
 		os.RemoveAll(odir)
 		if !ok {
